@@ -205,7 +205,7 @@ def run(ctx):
         real = parsing.real_parse(src)
         ctx.case(src, sample={"source": src[:300], "true_tree": exp[:200]})
         ctx.count("rendering_lines:%d" % min(20, src.count("\n")))
-        if ans != "outside" and parsing.normalise_model(ans) != real:
+        if ans != "outside" and parsing.normalise_model(ans) not in (real, "outside"):
             ctx.disagree("parse:lines", {"source": src}, real[:500], parsing.normalise_model(ans)[:500])
         if real != exp:
             ctx.fail("a node of the parse tree does not carry the line it starts on", {"source": src, "true": exp[:800], "parsed": real[:800]})
